@@ -348,6 +348,37 @@ pub struct Real {
     undecided: Cell<bool>,
     deepest: Cell<usize>,
     flog: Cell<Option<(u32, i64)>>,
+    /// Some((B, k)): the real stands for f(x) / B^k (huge arguments of exp: the value itself has
+    /// billions of digits, its quotient by a power of the base is enclosed instead; the judged
+    /// result is scaled by the same power, ulps are invariant under that)
+    pub scale: Option<(u32, i64)>,
+}
+
+impl Real {
+    /// exp(x) / B^k (f = Exp) or (exp(x) - 1) / B^k (f = Expm1, x > 0), k = floor(x / ln B) +- 1
+    pub fn exp_scaled(f: Func, x: Rat, base: u32, w0: u64) -> Real {
+        assert!(matches!(f, Func::Exp) || (matches!(f, Func::Expm1) && x.sgn() > 0));
+        let (_, l_hi) = ln_enc(&Rat::from_i(base as i64), 128 + x.n.bits());
+        let k = x.div(&l_hi).floor();
+        let k = i64::try_from(&k).expect("scaled exponent fits i64");
+        Real { f, x, y: Rat::zero(), exact: None, w0, levels: RefCell::new(vec![]), undecided: Cell::new(false), deepest: Cell::new(0), flog: Cell::new(None), scale: Some((base, k)) }
+    }
+    fn scaled_enclosure(&self, base: u32, k: i64, w: u64) -> (Rat, Rat) {
+        let w2 = w + self.x.n.bits() + 64;
+        let (l_lo, l_hi) = ln_enc(&Rat::from_i(base as i64), w2);
+        let kr = Rat::from_i(k);
+        let (a, b) = (kr.mul(&l_lo), kr.mul(&l_hi));
+        let (mn, mx) = if a.cmp(&b) == Ordering::Greater { (b, a) } else { (a, b) };
+        let (t_lo, t_hi) = (self.x.sub(&mx), self.x.sub(&mn));
+        let (lo, hi) = (exp_enc(&t_lo, w).0, exp_enc(&t_hi, w).1);
+        if matches!(self.f, Func::Expm1) {
+            // (e^x - 1) / B^k = e^t - B^-k, and 0 < B^-k < 2^-w
+            assert!(k as u64 > 2 * w, "exp_m1 scaling needs a large k");
+            (lo.sub(&rq(BigInt::one(), BigInt::one() << w)), hi)
+        } else {
+            (lo, hi)
+        }
+    }
 }
 
 impl Real {
@@ -360,10 +391,10 @@ impl Real {
             Func::Pow => rational_power(&x, &y),
             _ => None,
         };
-        Real { f, x, y, exact, w0, levels: RefCell::new(vec![]), undecided: Cell::new(false), deepest: Cell::new(0), flog: Cell::new(None) }
+        Real { f, x, y, exact, w0, levels: RefCell::new(vec![]), undecided: Cell::new(false), deepest: Cell::new(0), flog: Cell::new(None), scale: None }
     }
     pub fn rational(q: Rat) -> Real {
-        Real { f: Func::Pow, x: Rat::zero(), y: Rat::zero(), exact: Some(q), w0: 64, levels: RefCell::new(vec![]), undecided: Cell::new(false), deepest: Cell::new(0), flog: Cell::new(None) }
+        Real { f: Func::Pow, x: Rat::zero(), y: Rat::zero(), exact: Some(q), w0: 64, levels: RefCell::new(vec![]), undecided: Cell::new(false), deepest: Cell::new(0), flog: Cell::new(None), scale: None }
     }
     pub fn exact(&self) -> Option<&Rat> {
         self.exact.as_ref()
@@ -380,6 +411,10 @@ impl Real {
             let l = self.levels.borrow().len();
             let w = self.w0 << l;
             let e = match self.f {
+                _ if self.scale.is_some() => {
+                    let (b, k) = self.scale.unwrap();
+                    self.scaled_enclosure(b, k, w)
+                }
                 Func::Exp => exp_enc(&self.x, w),
                 Func::Expm1 => expm1_enc(&self.x, w),
                 Func::Ln => ln_enc(&self.x, w),
@@ -468,6 +503,7 @@ impl ExactReal for Real {
         let mid = approx(&rq(&lo.n * &hi.d + &hi.n * &lo.d, &lo.d * &hi.d * 2));
         match self.f {
             Func::Pow => format!("({})^({}) ~ {}", self.x.show(), self.y.show(), mid),
+            f if self.scale.is_some() => format!("{}({}) ~ {} * {}^{}", f.name(), self.x.show(), mid, self.scale.unwrap().0, self.scale.unwrap().1),
             f => format!("{}({}) ~ {}", f.name(), self.x.show(), mid),
         }
     }
